@@ -255,6 +255,41 @@ def rule_y3_y4(chk: Check, ci) -> None:
     chk.ob("Y4", "client built once with the location timeout", okc)
 
 
+def rule_y7(chk: Check, ci) -> None:
+    """Each request is mapped and fetched on its own: the handler keeps no state
+    that one request writes and another reads (a response cache, an in-flight
+    table, a remembered redirect): such state answers a request with the result
+    of a different URL."""
+    chk.rule("Y7", "the proxy handler is stateless across requests: outside __init__ no method stores to, or mutates, an attribute of self")
+    n = 0
+    ok = True
+    mutators = {"setdefault", "pop", "update", "append", "add", "clear", "popitem", "insert", "extend", "remove", "discard"}
+    for name, m in ci.methods.items():
+        if name == "__init__":
+            continue
+        for x in ast.walk(m.node):
+            hit = None
+            if isinstance(x, (ast.Assign, ast.AugAssign, ast.AnnAssign)):
+                tg = x.targets if isinstance(x, ast.Assign) else [x.target]
+                for t in tg:
+                    base = t.value if isinstance(t, ast.Subscript) else t
+                    if (dotted(base) or "").startswith("self."):
+                        hit = norm(t)
+            elif isinstance(x, ast.Call) and method_call(x) and method_call(x)[1] in mutators and (dotted(method_call(x)[0]) or "").startswith("self.") and (dotted(method_call(x)[0]) or "").count(".") == 1:
+                hit = norm(x)[:60]
+            elif isinstance(x, ast.Delete) and any((dotted(t.value if isinstance(t, ast.Subscript) else t) or "").startswith("self.") for t in x.targets):
+                hit = norm(x)[:60]
+            if hit:
+                n += 1
+                ok = False
+                chk.finding(
+                    "Y7", m.key, f"request-state:{hit[:50]}",
+                    f"`{hit}` keeps state on the handler that outlives the request: a later or concurrent request can be answered from it (e.g. an in-flight table keyed by the path answers `?q=beta` with the response to `?q=alpha`, and its own URL is never requested upstream)",
+                    m.loc(x),
+                )
+    chk.ob("Y7", f"{ci.key}: no attribute of self is written outside __init__", ok, f"{n} writes")
+
+
 def rule_y5(chk: Check) -> None:
     chk.rule("Y5", "locations are registered in list order as PREFIX routes with their own prefix; Router.route returns at the first match")
     fi = chk.proj.func("server.config:ServerConfig.get_location_router")
@@ -355,6 +390,7 @@ def run(chk: Check) -> None:
     rule_y2(chk, ci)
     rule_y3_y4(chk, ci)
     rule_y5(chk)
+    rule_y7(chk, ci)
     from .c19 import wire_fidelity
 
     wire_fidelity(chk, "Y6", "the proxy's client puts the joined URL on the wire with path and query as given: normalisation does not rewrite them (= C19.N1-N3)")
